@@ -306,11 +306,28 @@ package object
 //@   loop 2 invariant fresh(publicHashes)
 //@   loop 3 invariant fresh(privateHashes)
 //
+// the hash of a scalar is a function of the value (implementations read the immutable payload; Str goes through
+// the symbol table, which is a cache of a pure function). Assumed of every implementation.
+//@ spec fun hashOf(o PanObject) HashKey
+//@ func object.PanScalar.Hash(recv) res
+//@   trusted
+//@   ensures res == hashOf(recv)
 //@ func object.NewInheritedMap(proto, pairs) res
 //@   ensures  res != nil && fresh(res) && res.proto == proto && res.Pairs != nil && res.HashKeys != nil && res.NonHashablePairs != nil
 //@   ensures  fresh(res.Pairs) && fresh(res.HashKeys) && fresh(res.NonHashablePairs) && fresh(*res.Pairs) && fresh(*res.HashKeys) && fresh(*res.NonHashablePairs)
 //@   assigns  nothing
 //@   loop 1 invariant fresh(hashKeys) && fresh(nonHashablePairs) && fresh(pairMap) && pairMap != nil
+// C09: one value per distinct scalar key (the first), scalar keys in insertion order, other keys in insertion order
+//@   also     C09
+//@   ensures  len(*res.Pairs) == len(*res.HashKeys)
+//@   ensures  forall i int :: {(*res.HashKeys)[i]} 0 <= i && i < len(*res.HashKeys) ==> has(*res.Pairs, (*res.HashKeys)[i])
+//@   loop 1 invariant len(pairMap) == len(hashKeys) && (forall i int :: {hashKeys[i]} 0 <= i && i < len(hashKeys) ==> has(pairMap, hashKeys[i]))
+//@   loop 1 step forall h object.HashKey :: {pairMap[h]} prev(has(pairMap, h)) ==> has(pairMap, h) && pairMap[h] == prev(pairMap[h])
+//@   loop 1 step forall i int :: {hashKeys[i]} 0 <= i && i < prev(len(hashKeys)) ==> hashKeys[i] == prev(hashKeys[i])
+//@   loop 1 step forall i int :: {nonHashablePairs[i]} 0 <= i && i < prev(len(nonHashablePairs)) ==> nonHashablePairs[i] == prev(nonHashablePairs[i])
+//@   loop 1 step forall h object.HashKey :: {pairMap[h]} isT(pairs[rangeindex].Key, PanScalar) && h == hashOf(pairs[rangeindex].Key) && !prev(has(pairMap, h)) ==> len(hashKeys) == prev(len(hashKeys)) + 1 && hashKeys[prev(len(hashKeys))] == h && pairMap[h] == pairs[rangeindex] && len(nonHashablePairs) == prev(len(nonHashablePairs))
+//@   loop 1 step forall h object.HashKey :: {pairMap[h]} isT(pairs[rangeindex].Key, PanScalar) && h == hashOf(pairs[rangeindex].Key) && prev(has(pairMap, h)) ==> len(hashKeys) == prev(len(hashKeys)) && len(nonHashablePairs) == prev(len(nonHashablePairs))
+//@   loop 1 step !isT(pairs[rangeindex].Key, PanScalar) ==> len(hashKeys) == prev(len(hashKeys)) && len(nonHashablePairs) == prev(len(nonHashablePairs)) + 1 && nonHashablePairs[prev(len(nonHashablePairs))] == pairs[rangeindex]
 //
 //@ func object.NewPanMap(pairs) res
 //@   ensures  res != nil && fresh(res) && res.proto == BuiltInMapObj && res.Pairs != nil && res.HashKeys != nil && res.NonHashablePairs != nil
